@@ -5,11 +5,35 @@ sys.path.insert(0, os.path.join(os.path.dirname(os.path.abspath(__file__)), ".."
 import vlib, langcommon
 
 
+def negative_configs(ck):
+    """The layout model must reject the two defective designs (guards against vacuous invariants)."""
+    base = open(os.path.join(vlib.SPEC, "FmtLayout_inl.cfg")).read().replace("MaxNodes = 3", "MaxNodes = 2")
+    base = base.replace(" EmitFmt", "")
+    neg1 = base.replace('NonTrailerRule = "source"', 'NonTrailerRule = "newline"')
+    r1 = vlib.tlc("MCFmtLayout", "neg1.cfg", files={"neg1.cfg": neg1}, workers=2, timeout=600)
+    if r1.violated != "Idempotent":
+        raise vlib.InfraError("negative config (line break after every node without trailing-space info) was not rejected by Idempotent")
+    neg2 = base.replace("INVARIANTS TypeOK Idempotent FmtKeepsTokens", "INVARIANTS TypeOK NoInventedSeparation")
+    r2 = vlib.tlc("MCFmtLayout", "neg2.cfg", files={"neg2.cfg": neg2}, workers=2, timeout=600)
+    if r2.violated != "NoInventedSeparation":
+        raise vlib.InfraError("the layout model as coded should admit the known forced-line-break finding (NoInventedSeparation)")
+    pos2 = neg2.replace('ForcedBreaks = "asCoded"', 'ForcedBreaks = "onlyWhereSeparated"')
+    r3 = vlib.tlc("MCFmtLayout", "pos2.cfg", files={"pos2.cfg": pos2}, workers=2, timeout=600)
+    if not r3.ok:
+        raise vlib.InfraError("hypothetical repair of the forced line breaks does not satisfy NoInventedSeparation in the model")
+    ck.set("negative_configs_rejected", ["NonTrailerRule=newline violates Idempotent", "ForcedBreaks=asCoded violates NoInventedSeparation (known C08 finding)"])
+    ck.set("repair_design_checked", "ForcedBreaks=onlyWhereSeparated satisfies NoInventedSeparation and Idempotent")
+
+
 def run(prop):
     level = "translation_validation" if prop == "C08" else "model_checking"
     ck = vlib.Check(prop, level)
     thorough = ck.tier == "thorough"
-    progs, counts = langcommon.enumerate_programs(ck, langcommon.default_plan(ck.tier), ck.seed)
+    # FmtLayout.tla extends TemplLang.tla: TLC checks the layout model (Idempotent, FmtKeepsTokens) on every program it
+    # builds and prints each program together with the predicted formatted program Fmt(p)
+    progs, counts = langcommon.enumerate_programs(ck, langcommon.default_plan(ck.tier), ck.seed,
+                                                  module="MCFmtLayout", cfgprefix="FmtLayout", tag="FMT")
+    negative_configs(ck)
     limit = None if thorough else 6000
     chosen = langcommon.sample(progs, limit, ck.seed)
     if len(chosen) < 500:
@@ -17,6 +41,15 @@ def run(prop):
     sc = vlib.scratch()
     ppath = vlib.write_ndjson(os.path.join(sc, "progs.ndjson"), [{"id": p["id"], "prog": p["prog"], "den": []} for p in chosen])
     binp = vlib.go_build("./c08", "c08")
+    # conformance of the layout model: Fmt(p) in the canonical spelling = real formatter output for every spelling of p
+    lpath0 = vlib.write_ndjson(os.path.join(sc, "fmt.ndjson"), [{"prog": p["prog"], "fmt": p["fmt"]} for p in chosen])
+    pl = vlib.run([binp, "layout", lpath0], check=False, timeout=3000)
+    lay = vlib.harness_results(ck, pl)
+    if lay["programs"] != len(chosen):
+        raise vlib.InfraError("layout conformance processed %d of %d programs" % (lay["programs"], len(chosen)))
+    ck.set("layout_model_cases", lay["cases"])
+    ck.set("layout_model_agree", lay["agree"])
+    ck.set("layout_model_drift", lay["drift"])
     p = vlib.run([binp, "progs", ppath], check=False, timeout=3000)
     nfail = {"C08": 0, "C09": 0}
     summary = None
